@@ -19,8 +19,8 @@ from ..core import runner, snapshot, opwrap
 ID = 'C12'
 
 BOUNDS = {
-    'quick': dict(DEPTH=3, ALPHA='small'),
-    'thorough': dict(DEPTH=4, ALPHA='full'),
+    'quick': dict(RUNS=[('small', 3)]),
+    'thorough': dict(RUNS=[('full', 3), ('small', 4)]),
 }
 
 RHS = ['h', 'h[0]', '[h, h]', '{"k": h}', 'y', '[1, [2]]', 'enumerate(h)', 'items(d)', 't', 'd', 'd["k"]',
@@ -347,24 +347,29 @@ def main(tier, seed, t0):
     opwrap.install()
     total = runner.Result()
     seen = {}
-    frontier = [()]
     depth = 0
-    while frontier and depth < b['DEPTH']:
-        depth += 1
-        n = max(1, len(frontier) // 64 + 1)
-        tasks = [(frontier[i:i + n], b['ALPHA']) for i in range(0, len(frontier), n)]
-        tasks = runner.rotate(tasks, seed)
-        r = runner.run_tasks(work, tasks, selftest=(depth <= 2))
-        new = []
-        for st, hist in sorted(r.bag, key=lambda x: (x[1], x[0])):
-            if st not in seen:
-                seen[st] = hist
-                new.append(hist)
-        r.bag = set()
-        total.merge(r)
-        frontier = new
-        if depth == 2 and new:
-            total.sample({'history': list(new[len(new) // 2]), 'modes': ['one eval per statement', 'all statements in one eval']})
+    frontier = []
+    for alpha, maxdepth in b['RUNS']:
+        seen_run = {}
+        frontier = [()]
+        depth = 0
+        while frontier and depth < maxdepth:
+            depth += 1
+            n = max(1, len(frontier) // 64 + 1)
+            tasks = [(frontier[i:i + n], alpha) for i in range(0, len(frontier), n)]
+            tasks = runner.rotate(tasks, seed)
+            r = runner.run_tasks(work, tasks, selftest=(depth <= 2))
+            new = []
+            for st, hist in sorted(r.bag, key=lambda x: (x[1], x[0])):
+                if st not in seen_run:
+                    seen_run[st] = hist
+                    new.append(hist)
+            r.bag = set()
+            total.merge(r)
+            frontier = new
+            if depth == 2 and new:
+                total.sample({'history': list(new[len(new) // 2]), 'modes': ['one eval per statement', 'all statements in one eval']})
+        seen.update(seen_run)
     n = total.n
     if not n.get('assignment_nodes_checked'):
         print('INTERNAL-ERROR: no assignment node was observed (vacuous)')
@@ -375,10 +380,11 @@ def main(tier, seed, t0):
         'traces_validated_against_impl': n.get('evals', 0),
         'evaluations': n.get('evals', 0),
         'distinct_nontrivial': len(total.outcomes),
-        'rule': 'BFS to depth %d over %d statements (every assignment form x %d right-hand sides incl. host list / dict / tuple, '
-                'slices, builtin results, lambdas; mutations through reachable paths), each history replayed on fresh host objects '
-                'in two modes; states deduplicated on contents + alias partition; distinct_nontrivial = distinct canonical states '
-                'produced.' % (b['DEPTH'], len(actions(b['ALPHA'])), len(RHS if b['ALPHA'] == 'full' else RHS_SMALL)),
+        'rule': 'BFS runs %s (alphabet, depth): the small alphabet has %d statements (every assignment form x %d right-hand sides incl. host '
+                'list / dict / tuple / empty containers, builtin results; mutations through reachable paths), the full one %d statements x '
+                '%d right-hand sides; each history replayed on fresh host objects in two modes; states deduplicated on contents + alias '
+                'partition; distinct_nontrivial = distinct canonical states produced.'
+                % (b['RUNS'], len(actions('small')), len(RHS_SMALL), len(actions('full')), len(RHS)),
         'exhaustive': True,
         'frontier_exhausted': not frontier,
         'max_depth': depth,
